@@ -3,7 +3,8 @@ query that the oracles of C09 / C10 / C14 use as ground truth."""
 import collections
 
 # ----------------------------------------------------------------------------- catalogs
-PRED_CATALOGS = ['list', 'legacy_dict', 'project', 'to_predict', 'dict_integrations', 'default_mindsdb', 'to_predict_str', 'to_predict_other', 'meta_extras']
+PRED_CATALOGS = ['list', 'legacy_dict', 'project', 'to_predict', 'dict_integrations', 'default_mindsdb', 'to_predict_str', 'to_predict_other', 'meta_extras',
+                 'to_predict_second_only', 'to_predict_first_only']
 
 
 def catalog(kind):
@@ -21,6 +22,11 @@ def catalog(kind):
     if kind == 'to_predict_str':
         # the target named by a plain string (more than one character), not a list
         return dict(integrations=['int1', 'int2'], predictor_metadata=meta(to_predict='p1x')), 'mindsdb', 'mindsdb'
+    if kind in ('to_predict_second_only', 'to_predict_first_only'):
+        # the two models predict different columns: the target of one is an ordinary argument of the other
+        tp = ('zz', 'p1') if kind == 'to_predict_second_only' else ('p1', 'zz')
+        return dict(integrations=['int1', 'int2'], predictor_metadata=[dict(name='pred', integration_name='mindsdb', to_predict=[tp[0]]),
+                                                                        dict(name='pred2', integration_name='mindsdb', to_predict=[tp[1]])]), 'mindsdb', 'mindsdb'
     if kind == 'to_predict_other':
         return dict(integrations=['int1', 'int2'], predictor_metadata=meta(to_predict=['zz'])), 'mindsdb', 'mindsdb'
     if kind == 'meta_extras':
@@ -33,7 +39,7 @@ def catalog(kind):
     raise ValueError(kind)
 
 
-SHAPES = ['t_m', 'm_t', 't_t_m', 't_m_t', 'sub_m', 't_m_m', 'implicit', 'on_map', 'left_join', 't_m_version',
+SHAPES = ['t_m', 'm_t', 't_t_m', 't_m_t', 'sub_m', 't_m_m', 't_m_m_aliased', 't_m_t_m', 'implicit', 'on_map', 'left_join', 't_m_version',
           # a second table whose ON clause carries more than the key equality (allowed pushdown: top-level conjuncts of an inner / left join's ON)
           't_t_m_on_and', 't_t_m_on_or', 't_t_m_on_not', 't_t_m_on_constfirst', 't_t_m_left_on_and', 't_t_m_right_on_and', 't_t_m_on_paren_or',
           # a table joined after the model: no ON, non-equality ON, ON against a model column
@@ -88,7 +94,13 @@ USINGS = [('none', '', None, None), ('one', 'USING x = 1', {'x': 1}, None), ('mi
           ('partition', 'USING partition_size = 2', {}, 2), ('partition_and', 'USING partition_size = 2, x = 1', {'x': 1}, 2),
           ('alias_prefixed', 'USING {m}.x = 1', {'x': 1}, None),
           ('alias_prefixed_dotted', "USING {m}.prompt.template = 't', {m}.x = 1", {'prompt.template': 't', 'x': 1}, None),
-          ('values_kept', "USING s = 'MiXed Case', n = NULL, f = 1.5", {'s': 'MiXed Case', 'n': None, 'f': 1.5}, None)]
+          ('values_kept', "USING s = 'MiXed Case', n = NULL, f = 1.5", {'s': 'MiXed Case', 'n': None, 'f': 1.5}, None),
+          # per-model options of a statement with two aliased models m1 / m2 (only meaningful for the *_aliased shapes)
+          ('two_partitions', 'USING m1.partition_size = 2, m2.partition_size = 3', {}, 2),
+          ('two_partitions_same', 'USING m1.partition_size = 2, m2.partition_size = 2', {}, 2),
+          ('partition_second_only', 'USING m2.partition_size = 2', {}, 2),
+          ('partition_and_second', 'USING partition_size = 2, m2.partition_size = 3', {}, 2),
+          ('per_model_options', 'USING m1.x = 1, m2.x = 2', None, None)]
 TARGETS = [('star', '*'), ('cols', '{t}.a, {m}.p')]
 LIMITS = [('none', ''), ('l1', 'LIMIT 1'), ('order_limit', 'ORDER BY {t}.a LIMIT 2')]
 
@@ -119,6 +131,8 @@ def build(a):
     tref = 'int1.t1' + (f' AS {ta}' if ta else '')
     mref = mname + (f' AS {ma}' if ma else '')
     if ul in ('alias_prefixed', 'alias_prefixed_dotted') and not ma:
+        return None
+    if ul in ('two_partitions', 'two_partitions_same', 'partition_second_only', 'partition_and_second', 'per_model_options') and shape not in ('t_m_m_aliased', 't_m_t_m'):
         return None
     if any(c[0] == 't2' for c in conj) and shape not in ('t_t_m', 't_m_t') and shape not in ON_EXTRA and not shape.startswith('t_m_t'):
         return None
@@ -179,6 +193,16 @@ def build(a):
             return None
         frm = f'{tref} JOIN {mref} JOIN {m2name}'
         models.append(dict(name='pred2', ref='pred2', project=project, version=None, feed=['t1', 'pred'], on_map={}))
+    elif shape in ('t_m_m_aliased', 't_m_t_m'):
+        if ma or ta:
+            return None
+        mid = ' JOIN int2.t2 ON t1.id = t2.id' if shape == 't_m_t_m' else ''
+        frm = f'{tref} JOIN {mname} AS m1{mid} JOIN {m2name} AS m2'
+        m = 'm1'
+        models = [dict(name='pred', ref='m1', project=project, version=None, feed=['t1'], on_map={}),
+                  dict(name='pred2', ref='m2', project=project, version=None, feed=['t1', 'pred'] + (['t2'] if mid else []), on_map={})]
+        if mid:
+            tables.append(dict(name='t2', integration='int2', ref='t2'))
     elif shape == 'implicit':
         frm = f'{tref}, {mref}'
     elif shape == 'on_map':
